@@ -201,6 +201,41 @@ func run(cfg lib.Cfg) error {
 		sc.Acts = append(sc.Acts, ts.Steps(1, 4)...)
 		judge(sc, "spelling-of-start-stop")
 	}
+	// SEVERAL integrations stored in shovel.integrations (as the dashboard stores them), each
+	// with its own start / stop on the same source, loaded through loadTasks in both row
+	// orders, alone and next to an integration from the file.  Load-time oracle: every task's
+	// range is the one of ITS OWN stored declaration; then the range oracle on what they write.
+	for v, c := range []struct {
+		order  []string
+		shape2 string
+		file   bool
+	}{
+		{[]string{"ig1", "ig2"}, "log", false},
+		{[]string{"ig2", "ig1"}, "log", false},
+		{[]string{"ig1", "ig2", "ig3"}, "tx", false},
+		{[]string{"ig3", "ig1", "ig2"}, "tx", false},
+		{[]string{"ig2", "ig1"}, "tx", true}, // ig3 stays in the file
+	} {
+		sc := &ts.Scenario{Name: fmt.Sprintf("stored-integrations-%d-rows-%v", v, c.order), Seed: uint64(500 + v), Head: 12,
+			Gen:  ts.GenOpts{MaxTxs: 2, MaxLogs: 3, Decoys: true, EmptyProb: 0},
+			Srcs: []ts.SrcSpec{{Name: "main", ChainID: 1, Batch: 3, Conc: 1, URL: "http://main.invalid"}},
+			IGs: []ts.IGSpec{
+				{Name: "ig1", Shape: "log", Table: "t1", Sources: []ts.SrcRef{{Name: "main", Start: 2, Stop: 5}}},
+				{Name: "ig2", Shape: c.shape2, Table: "t2", Sources: []ts.SrcRef{{Name: "main", Start: 4, Stop: 9}}},
+				{Name: "ig3", Shape: "log", Table: "t3", AddrFlt: true, Sources: []ts.SrcRef{{Name: "main", Start: 7}}},
+			}}
+		for _, n := range c.order {
+			sc.DBRows = append(sc.DBRows, ts.DBRow{Name: n, Copies: 1})
+		}
+		for k := 0; k < 3; k++ {
+			sc.Acts = append(sc.Acts, ts.Act{Do: "stepall"})
+		}
+		sc.Acts = append(sc.Acts, ts.Act{Do: "restart"})
+		for k := 0; k < 3; k++ {
+			sc.Acts = append(sc.Acts, ts.Act{Do: "stepall"})
+		}
+		judge(sc, "stored-integrations-own-range")
+	}
 	// two integrations on ONE source through the real jrpc2.Client (one client per source,
 	// shared segment caches, maxreads 2), same plan kind, both at the same position; "bounded"
 	// has a stop inside the next batch, "open" has none and asks for the longer batch from the
